@@ -459,6 +459,9 @@ func (s *verifFakeSMTP) serve(c net.Conn) {
 	defer c.Close()
 	c.SetDeadline(time.Now().Add(20 * time.Second))
 	r := bufio.NewReader(c)
+	// a relay is never instantaneous; the daemon's sendMail() hands the result over with a non-blocking channel send and
+	// loses it (then waits out its 15 s timer) when the relay answers before the caller has started waiting
+	time.Sleep(150 * time.Millisecond)
 	fmt.Fprintf(c, "220 verif ESMTP\r\n")
 	for {
 		line, err := r.ReadString('\n')
